@@ -197,7 +197,12 @@ class BodyMixin:
         elif markup.error is not None:
             self._raise(markup.error, RequestError)
         listified = set()
-        for item in FieldStorage.iter_items(body, markup.markups, self.config.max_memfile_size):
+        try:
+            items = list(FieldStorage.iter_items(body, markup.markups, self.config.max_memfile_size))
+        except RequestError as err:
+            # a part the field parser refuses (malformed, too large for memory) is a request error
+            self._raise(err, RequestError)
+        for item in items:
             if item.filename:
                 it = FileUpload(
                     item.file, item.name,
